@@ -30,6 +30,14 @@ LAYOUT_CM_T = (
     "NotComment: /((\\*[^\\/])|[^\\s*\\/]|\\/[^\\*])+/;\n")
 LAYOUT_EQ = "LAYOUT: WS | EMPTY;\n"
 LAYOUT_EQ_T = "WS: /[ \\n]+/;\n"
+# (ws string, the same characters as a regex class, input alphabet): ws is a
+# plain set of characters whatever they would mean in a regular expression
+WS_SETS = [
+    (" \n", "WS: /[ \\n]+/;\n", "ab \n"),
+    ("^ ", "WS: /[\\^ ]+/;\n", "ab^ "),
+    ("\\ ", "WS: /[\\\\ ]+/;\n", "ab\\ "),
+    ("]-[ ", "WS: /[\\]\\-\\[ ]+/;\n", "a][-"),
+]
 
 
 def plan(tier, seed):
@@ -41,6 +49,9 @@ def plan(tier, seed):
             dict(fam="relayout", space="k3", mode="comments", ntok=1,
                  ntok_light=2, win=(seed, 8)),
             dict(fam="equiv", space="k3", nmax=4, win=(seed, 3)),
+            dict(fam="equiv", space="k3", nmax=3, win=(seed, 24), wsset=1),
+            dict(fam="equiv", space="k3", nmax=3, win=(seed, 24), wsset=2),
+            dict(fam="equiv", space="k3", nmax=3, win=(seed, 24), wsset=3),
         ]
     return [
         dict(fam="relayout", space="k3", mode="ws", ntok=3, ntok_light=0),
@@ -49,6 +60,9 @@ def plan(tier, seed):
         dict(fam="relayout", space="k3", mode="comments", ntok=2, ntok_light=3),
         dict(fam="equiv", space="k3", nmax=4),
         dict(fam="equiv", space="k4only", nmax=4, win=(0, 4)),
+        dict(fam="equiv", space="k3", nmax=4, wsset=1),
+        dict(fam="equiv", space="k3", nmax=4, wsset=2),
+        dict(fam="equiv", space="k3", nmax=4, wsset=3),
     ]
 
 
@@ -195,38 +209,55 @@ def equiv_unit(u):
     mon = Monitor()
     judge = Judge(PROP, KNOWN)
     st = collections.Counter()
-    inputs = spaces.strings("ab \n", u["nmax"])
+    ws, lterm, alpha = WS_SETS[u.get("wsset", 0)]
+    inputs = spaces.strings(alpha, u["nmax"])
     samples = []
     for gi in u["idx"]:
         prods = gs[gi]
         gk = spaces.gkey(prods, nts)
         text = spaces.render_grammar(prods, nts, "M0")
-        ltext = add_layout(text, LAYOUT_EQ, LAYOUT_EQ_T)
+        ltext = add_layout(text, LAYOUT_EQ, lterm)
         pairs = []
         for kind in ("glr", "lr"):
             for tk in ("LALR", "SLR"):
-                try:
-                    kw = {"build_tree": True} if kind == "lr" else {}
-                    a = build(kind, grammar_from_string(text), mon,
-                              tag=(gi, kind, tk, "ws"), tables=tk, ws=" \n", **kw)
-                    b = build(kind, grammar_from_string(ltext), mon,
-                              tag=(gi, kind, tk, "L"), tables=tk, **kw)
-                    pairs.append((f"{kind}/{tk}", kind, a, b))
-                except (Exception, BudgetExceeded):   # noqa: BLE001
-                    pass
+                kw = {"build_tree": True} if kind == "lr" else {}
+                built = []
+                for txt, tg, opt in ((text, "ws", {"ws": ws}), (ltext, "L", {})):
+                    try:
+                        built.append(build(kind, grammar_from_string(txt), mon,
+                                           tag=(gi, kind, tk, tg), tables=tk,
+                                           **opt, **kw))
+                    except BudgetExceeded:
+                        built.append("budget")
+                    except Exception as e:   # noqa: BLE001
+                        built.append(type(e).__name__)
+                if not any(isinstance(x, str) for x in built):
+                    pairs.append((f"{kind}/{tk}", kind, built[0], built[1]))
+                elif "budget" not in built and \
+                        isinstance(built[0], str) != isinstance(built[1], str):
+                    judge.deviation(
+                        "WS-VS-LAYOUT", f"equiv/{kind}/{tk}/build", gk, "",
+                        "a parser constructs with the ws parameter but not "
+                        "with the equivalent LAYOUT rule, or the reverse",
+                        {"ws": built[0] if isinstance(built[0], str) else "ok",
+                         "layout": built[1] if isinstance(built[1], str)
+                         else "ok"},
+                        {"grammar": ltext, "parser": kind, "ws": ws,
+                         "options": {"tables": tk}})
         for s in inputs:
             for name, kind, a, b in pairs:
                 x = observe(kind, a, s, mon, full)
                 y = observe(kind, b, s, mon, full)
                 st["evaluations"] += 1
-                if x[0] == "ok" and (" " in s or "\n" in s):
+                if x[0] == "ok" and any(ch in s for ch in ws):
                     st["nontrivial"] += 1
                 if x != y:
                     judge.deviation(
-                        "WS-VS-LAYOUT", f"equiv/{name}", gk, s,
+                        "WS-VS-LAYOUT", f"equiv/{name}" + (
+                            f"/ws{u['wsset']}" if u.get("wsset") else ""), gk, s,
                         "ws parameter and the equivalent LAYOUT rule disagree",
                         {"ws": str(x)[:300], "layout": str(y)[:300]},
-                        {"grammar": ltext, "parser": kind,
+                        {"grammar": ltext, "parser": kind, "ws": ws,
                          "options": {"tables": name.split("/")[1]}, "input": s})
         if not samples:
             samples.append({"grammar": gk, "family": "ws vs LAYOUT",
